@@ -192,6 +192,17 @@ pub struct Node<A> {
     pub incomings: Vec<(Duration, SocketAddr, bool, bool)>,
 }
 
+/// Connection internals read (through the hook) right before a poll_transmit call
+#[derive(Debug, Clone, PartialEq, Eq)]
+pub struct Pre {
+    pub in_flight: u64,
+    pub cwnd: u64,
+    pub loss_probes: [u32; 3],
+    pub state: &'static str,
+    pub path_validated: bool,
+    pub path_challenge: bool,
+}
+
 #[derive(Debug, Clone, PartialEq, Eq)]
 pub enum Routed {
     Conn(ConnectionHandle),
@@ -222,6 +233,8 @@ pub enum Rec {
         fate: Fate,
         /// MTU the connection reported just before poll_transmit
         mtu_before: u16,
+        /// Probe snapshot taken just before the poll_transmit call (when `probe_pre` is on)
+        pre: Option<Box<Pre>>,
     },
     Deliver {
         t: Duration,
@@ -268,6 +281,8 @@ pub struct World<A: App> {
     /// Blackhole: drop everything sent by these nodes
     pub blackhole: Vec<bool>,
     pub blackhole_default: bool,
+    /// Take a probe snapshot before every poll_transmit (C12/C13)
+    pub probe_pre: bool,
     /// Do not forward Drained to the endpoint and keep drained connections live (C20 part 5)
     pub hold_drained: bool,
     /// Consecutive timer firings at one instant for one connection: (t, node, ch, count)
@@ -306,6 +321,7 @@ impl<A: App> World<A> {
             make_app,
             blackhole: Vec::new(),
             blackhole_default: false,
+            probe_pre: false,
             hold_drained: false,
             timer_streak: (Duration::ZERO, 0, 0, 0),
             max_timer_streak: 0,
@@ -397,6 +413,7 @@ impl<A: App> World<A> {
         seg: usize,
         nseg: usize,
         mtu_before: u16,
+        pre: Option<Box<Pre>>,
     ) {
         let idx = self.emitted;
         self.emitted += 1;
@@ -425,6 +442,7 @@ impl<A: App> World<A> {
             nseg,
             fate,
             mtu_before,
+            pre,
         });
         let ecn = if self.ce_marks.contains(&idx) && ecn.is_some() { Some(EcnCodepoint::Ce) } else { ecn };
         let mut push = |w: &mut Self, extra: Duration| {
@@ -480,6 +498,7 @@ impl<A: App> World<A> {
         t: &Transmit,
         buf: &[u8],
         mtu_before: u16,
+        pre: Option<Box<Pre>>,
     ) {
         let seg = t.segment_size.unwrap_or(t.size).max(1);
         let batch = self.batches;
@@ -487,7 +506,7 @@ impl<A: App> World<A> {
         let chunks: Vec<&[u8]> = buf[..t.size].chunks(seg).collect();
         let n = chunks.len();
         for (i, c) in chunks.into_iter().enumerate() {
-            self.emit(node, ch, serial, t.destination, c, t.ecn, batch, i, n, mtu_before);
+            self.emit(node, ch, serial, t.destination, c, t.ecn, batch, i, n, mtu_before, pre.clone());
         }
     }
 
@@ -524,6 +543,17 @@ impl<A: App> World<A> {
             let mut buf = Vec::new();
             loop {
                 let mtu_before = slot.conn.current_mtu();
+                let pre = self.probe_pre.then(|| {
+                    let pr = slot.conn.verif_probe();
+                    Box::new(Pre {
+                        in_flight: pr.in_flight_bytes,
+                        cwnd: pr.cwnd,
+                        loss_probes: [pr.spaces[0].loss_probes, pr.spaces[1].loss_probes, pr.spaces[2].loss_probes],
+                        state: pr.state,
+                        path_validated: pr.path_validated,
+                        path_challenge: pr.path_challenge,
+                    })
+                });
                 buf.clear();
                 let Some(t) = slot.conn.poll_transmit(now, self.max_datagrams, &mut buf) else { break };
                 progressed = true;
@@ -531,7 +561,7 @@ impl<A: App> World<A> {
                     self.post_drain_output.push(format!("transmit of {} bytes after drained", t.size));
                 }
                 let serial = slot.serial;
-                self.emit_transmit(node, Some(ch), Some(serial), &t, &buf, mtu_before);
+                self.emit_transmit(node, Some(ch), Some(serial), &t, &buf, mtu_before, pre);
             }
             while let Some(ev) = slot.conn.poll() {
                 progressed = true;
@@ -591,7 +621,7 @@ impl<A: App> World<A> {
             }
             AcceptPolicy::Refuse => {
                 let t = self.nodes[node].ep.refuse(inc, &mut buf);
-                self.emit_transmit(node, None, None, &t, &buf, 0);
+                self.emit_transmit(node, None, None, &t, &buf, 0, None);
                 None
             }
             AcceptPolicy::Ignore => {
@@ -600,7 +630,7 @@ impl<A: App> World<A> {
             }
             AcceptPolicy::Retry if !inc.remote_address_validated() && inc.may_retry() => {
                 let t = self.nodes[node].ep.retry(inc, &mut buf).expect("may_retry checked");
-                self.emit_transmit(node, None, None, &t, &buf, 0);
+                self.emit_transmit(node, None, None, &t, &buf, 0, None);
                 None
             }
             _ => self.accept(node, inc),
@@ -626,7 +656,7 @@ impl<A: App> World<A> {
             Err(e) => {
                 self.nodes[node].accept_errors.push(format!("{:?}", e.cause));
                 if let Some(t) = e.response {
-                    self.emit_transmit(node, None, None, &t, &buf, 0);
+                    self.emit_transmit(node, None, None, &t, &buf, 0, None);
                 }
                 None
             }
@@ -678,7 +708,7 @@ impl<A: App> World<A> {
                 Routed::New(self.handle_incoming(node, inc))
             }
             Some(DatagramEvent::Response(t)) => {
-                self.emit_transmit(node, None, None, &t, &buf, 0);
+                self.emit_transmit(node, None, None, &t, &buf, 0, None);
                 Routed::Response(t.size)
             }
             None => Routed::Nothing,
